@@ -74,6 +74,43 @@ def gen(ctx, T):
                 w2 = list(words)
                 w2[s] = (newwc << 16) | (w2[s] & 0xffff)
                 cases.append(("parse " + instgen.to_bytes(w2).hex(), dict(kind="wc", insts=texts, k=j, starts=starts)))
+    # context that CHANGES inside one stream: an id declared again with another width, or declared after its first use — the width of
+    # each literal follows the declarations that precede *that* instruction (conforming streams: must be accepted as encoded)
+    I, Op = instgen.Inst, instgen.Op
+    L32, idr = g.vix["LiteralBit32"], g.vix["IdRef"]
+
+    def tint(rid, w):
+        return I(g.opv["TypeInt"], "TypeInt", None, rid, [Op("w", L32, w), Op("w", L32, 0)])
+
+    def tfloat(rid, w):
+        return I(g.opv["TypeFloat"], "TypeFloat", None, rid, [Op("w", L32, w)])
+
+    def const(t, rid, two, kind="Constant"):
+        return I(g.opv[kind], kind, t, rid, g.literal(two))
+
+    def switch(sel, two, n=2):
+        ops = [Op("w", idr, sel), Op("w", idr, 9)]
+        for _ in range(n):
+            ops += g.literal(two) + [Op("w", idr, 9)]
+        return I(g.opv["Switch"], "Switch", None, None, ops)
+
+    def undef(t, rid):
+        return I(g.opv["Undef"], "Undef", t, rid, [])
+    streams = []
+    for a, b in ((32, 64), (64, 32), (16, 64), (64, 8)):
+        for mk in (tint, tfloat):
+            if mk is tfloat and 8 in (a, b):
+                continue
+            streams.append([mk(1, a), const(1, 2, a == 64), mk(1, b), const(1, 3, b == 64), const(1, 4, b == 64, "SpecConstant")])
+            streams.append([mk(1, a), const(1, 2, a == 64), const(1, 2, a == 64), mk(1, b), const(1, 3, b == 64), mk(1, a), const(1, 4, a == 64)])
+            streams.append([const(5, 2, False), mk(5, 64), const(5, 3, True)])
+            streams.append([mk(1, a), undef(1, 3), switch(3, a == 64), mk(7, b), undef(7, 3), switch(3, b == 64), switch(3, b == 64, 0)])
+            streams.append([switch(3, False), mk(1, 64), undef(1, 3), switch(3, True), mk(1, 32), switch(3, True), undef(1, 3), switch(3, False)])
+    for st in streams:
+        words = instgen.header()
+        for i in st:
+            words += i.words()
+        cases.append(("parse " + instgen.to_bytes(words).hex(), dict(kind="valid", insts=[i.text() for i in st], words=words)))
     return cases
 
 
